@@ -380,9 +380,10 @@ PROPS = {
               'expected tag wires and the field patterns) is true exactly when the first tag_size wires carry the variant number. (4) first match: the Match arm of TypedExpr::compile (unit branches; clause patterns and bodies compiled by opaque recursive '
               'calls) returns, for every input, the result wires of the first clause whose match wire is true. (5) structured constructors: the True / False, '
               'Tuple, Struct, Variant and Array arms of specialize are contracted structurally - a variable head becomes one wildcard per field type, a '
-              'pattern of the same constructor (same struct / variant name) is replaced by its sub-patterns, in both cases followed by the rest of the '
-              'row, every other head drops the row. NOT under contract: the usefulness recursion (usefulness, split_ctor) that composes these steps, the '
-              'lowering of struct / enum patterns, parsing: as the labelled bounded stand-in, random and directed arm lists over 12 '
+              'pattern of the same constructor (same variant name) is replaced by its sub-patterns, in both cases followed by the rest of the '
+              'row, every other head drops the row; a struct pattern (fields in any order, with or without `..`) contributes one column per field of the struct in '
+              'definition order - its pattern for that field, a wildcard where it has none. NOT under contract: the usefulness recursion (usefulness, split_ctor) that composes these steps, the '
+              'lowering of struct / enum patterns, parsing: as the labelled bounded stand-in, random and directed arm lists over 14 '
               'scrutinee types (incl. bounds outside the type, empty and inverted ranges) are decided on the real checker and compared with brute-force '
               'enumeration (accepted exactly when every value is matched; every accepted match compiled and evaluated against the first matching arm).',
         note='Trusted: <[T]>::sort_unstable returns a sorted permutation and Vec::dedup keeps the same elements and makes a sorted vector strictly increasing '
